@@ -354,6 +354,7 @@ package zap
 //@   props C03
 //@   flags nopanic trusted
 //@   modifies nothing
+//@   ensures wfEnc(result)
 
 //@ func (*zap.Logger).Core
 //@   props C05
@@ -1157,3 +1158,14 @@ package zap
 //@   flags nopanic
 //@   modifies comp(MD:map_string_func__net_url.URL___zap.Sink__error_), comp(MV:map_string_func__net_url.URL___zap.Sink__error_)
 //@   ensures fresh(result) && result.factories != nil && result.openFile != nil && !held(&result.mu)
+
+// zap.Time (C03, C18): times representable as int64 nanoseconds travel as (nanoseconds, location),
+// all others as the time.Time value itself; nothing is dropped.
+//@ func zap.Time
+//@   props C03 C18
+//@   flags nopanic
+//@   modifies nothing
+//@   ensures result.Key == key && (result.Type == zapcore.TimeType || result.Type == zapcore.TimeFullType) && result.String == ""
+//@   ensures result.Type == zapcore.TimeFullType ==> typeof(result.Interface) == type(time.Time) && as(result.Interface, type(time.Time)) == val && result.Integer == 0
+//@   ensures result.Type == zapcore.TimeType ==> (result.Interface == nil || typeof(result.Interface) == type(*time.Location))
+//@   ensures result.Type == zapcore.TimeFullType <==> (time.Time.Before(val, _minTimeInt64) || time.Time.After(val, _maxTimeInt64))
